@@ -61,7 +61,8 @@ CONFIG = {
     'must_sig': ['fair_states:agree', 'mc:agree', 'mc:CTL', 'mc:CTLS',
                  'mc:LTL', 'F:empty_list', 'F:all_states', 'F:two_sets',
                  'shape:fair_and_unfair_cycle', 'fairset:proper',
-                 'labels:fair_lookalikes', 'shape:two_lobes'],
+                 'labels:fair_lookalikes', 'shape:two_lobes',
+                 'F:related_variant'],
     'rule': ('cases = (structure, F, formula, logic); structures: class '
              'representatives with <=2 states (all) and 3 states (sample; all '
              'in thorough), hand-built structures where a fair SCC sits next '
@@ -432,12 +433,44 @@ def with_fair_lookalikes(nk, r):
     return NK(nk.states, nk.succ, labels)
 
 
+def f_variants(F, nk):
+    """Lists that denote the same or a closely related family: a constraint
+    repeated as an equal but distinct object, the very same object listed
+    twice, a superset of a listed constraint added (implied by it), the list
+    reversed, one constraint three times.  Anything that prunes, deduplicates
+    or indexes constraints has to get these right."""
+    F = [set(P) for P in F]
+    if not F:
+        return []
+    sts = list(nk.states)
+    sup = set(F[0]) | {sts[(len(F[0]) + len(F)) % len(sts)]}
+    return [F + [set(F[0])],
+            (lambda G: G + [G[-1]])([set(P) for P in F]),
+            [set(P) for P in F] + [sup],
+            [sup] + [set(P) for P in F],
+            [set(P) for P in reversed(F)],
+            [set(F[0]), set(F[0]), set(F[0])]]
+
+
 def drive(nk, Fs, ts, i0, ctx):
     if i0 % 3 == 1:
         LOG.sig['labels:fair_lookalikes'] += 1
         nk = with_fair_lookalikes(nk, gen.rng(ctx.seed, PROP, ('lk', i0)))
     K = mcwork.kripke_of(nk)
     i = i0
+    extra = []
+    for j, F in enumerate(Fs):
+        vs = f_variants(F, nk)
+        for V in vs:
+            # the get_fair_states monitor judges each of these returns
+            LOG.sig['F:related_variant'] += 1
+            try:
+                K.get_fair_states(V)
+            except Exception:
+                pass
+        if vs and (i0 + j) % 3 == 0:
+            extra.append(vs[(i0 + j) // 3 % len(vs)])
+    Fs = list(Fs) + extra
     for F in Fs:
         try:
             K.get_fair_states([set(P) for P in F])
